@@ -1,0 +1,35 @@
+//go:build verif
+
+package x509
+
+import "bytes"
+
+// Verification hooks for CertPool (add-only, build tag verif).
+
+// VerifPoolDump returns copies of the pool's certificate list and its three index maps.
+func VerifPoolDump(s *CertPool) (certs []*Certificate, bySHA256 map[string]int, byName, bySubjectKeyId map[string][]int) {
+	certs = append(certs, s.certs...)
+	bySHA256 = make(map[string]int, len(s.bySHA256))
+	for k, v := range s.bySHA256 {
+		bySHA256[k] = v
+	}
+	cp := func(m map[string][]int) map[string][]int {
+		o := make(map[string][]int, len(m))
+		for k, v := range m {
+			o[k] = append([]int(nil), v...)
+		}
+		return o
+	}
+	return certs, bySHA256, cp(s.byName), cp(s.bySubjectKeyId)
+}
+
+// VerifFindVerifiedParents exposes findVerifiedParents.
+func VerifFindVerifiedParents(s *CertPool, c *Certificate) ([]int, *Certificate, error) {
+	return s.findVerifiedParents(c)
+}
+
+// VerifIsEntrustSPKI reports whether c carries the public key that CheckSignatureFrom exempts
+// from the basic-constraints requirement.
+func VerifIsEntrustSPKI(c *Certificate) bool {
+	return bytes.Equal(c.RawSubjectPublicKeyInfo, entrustBrokenSPKI)
+}
